@@ -11,6 +11,9 @@
  *         overlapping nodesets, hwloc_topology_check() aborts.  "pu:2(indexes=0,4294967295)" gives a PU whose
  *         os_index is HWLOC_UNKNOWN_INDEX.  (fix: C07-duplicate-numa-indexes.patch: explicit PU/NUMA index lists with
  *         duplicate or invalid values are ignored, as other malformed index attributes already are)
+ * case 5  "l3:3 l3:3 pu:1": two levels of one cache type are accepted (the parser refuses several package, die, core
+ *         and NUMA levels but forgets the caches); hwloc_get_type_depth(L3) returns HWLOC_TYPE_DEPTH_MULTIPLE, which hwloc.h
+ *         reserves for Groups ("only for Groups")  (fix: C07-duplicate-cache-levels.patch)
  */
 #include <hwloc.h>
 #include <stdio.h>
@@ -19,7 +22,7 @@
 #include <errno.h>
 int main(int argc, char **argv) {
   int c = argc > 1 ? atoi(argv[1]) : 1, r;
-  const char *s = c == 1 ? "memcache:1 pu:2" : c == 2 ? "node:2(memorysidecachesize=1MB) pu:2" : c == 3 ? "node:2(indexes=0,0) pu:2" : "pu:2(indexes=0,4294967295)";
+  const char *s = c == 1 ? "memcache:1 pu:2" : c == 2 ? "node:2(memorysidecachesize=1MB) pu:2" : c == 3 ? "node:2(indexes=0,0) pu:2" : c == 4 ? "pu:2(indexes=0,4294967295)" : "l3:3 l3:3 pu:1";
   hwloc_topology_t t;
   hwloc_topology_init(&t);
   errno = 0;
@@ -28,7 +31,7 @@ int main(int argc, char **argv) {
   if (!r) {
     r = hwloc_topology_load(t);
     printf("load=%d\n", r);
-    if (!r) { hwloc_obj_t pu = hwloc_get_obj_by_type(t, HWLOC_OBJ_PU, hwloc_get_nbobjs_by_type(t, HWLOC_OBJ_PU) - 1); printf("last PU os_index=%u\n", pu->os_index); hwloc_topology_check(t); printf("check passed\n"); }
+    if (!r) { hwloc_obj_t pu = hwloc_get_obj_by_type(t, HWLOC_OBJ_PU, hwloc_get_nbobjs_by_type(t, HWLOC_OBJ_PU) - 1); printf("last PU os_index=%u, depth of L3 = %d (MULTIPLE = %d)\n", pu->os_index, hwloc_get_type_depth(t, HWLOC_OBJ_L3CACHE), HWLOC_TYPE_DEPTH_MULTIPLE); hwloc_topology_check(t); printf("check passed\n"); }
   }
   hwloc_topology_destroy(t);
   return 0;
